@@ -27,7 +27,7 @@ inline std::vector<std::pair<size_t, size_t>> factor_windows(size_t n, bool used
 template <class E, size_t o>
 void op_case(size_t n) {
   auto &En = Engine::get();
-  auto g = gridvars(n);
+  auto g = gridpoints(n);
   Grid<Real> grid(g);
   Real c = Real::var("c");
   if (E::divides_by_c) En.assume(sym::ne(c, Real(0)));
@@ -53,7 +53,7 @@ void op_case(size_t n) {
 template <class EA, class EB, size_t oa, size_t ob>
 void link_case(size_t n, std::pair<size_t, size_t> wa) {
   auto &En = Engine::get();
-  auto g = gridvars(n);
+  auto g = gridpoints(n);
   Grid<Real> grid(g);
   Real c = Real::var("c");
   if (EA::divides_by_c || EB::divides_by_c) En.assume(sym::ne(c, Real(0)));
@@ -76,10 +76,21 @@ void add_op_o(std::vector<Case> &cases) {
   for (size_t n = 2; n <= MAXN; n++) cases.push_back({std::string("lin/") + E::name + "/o" + std::to_string(o) + "/n" + std::to_string(n), [=] { op_case<E, o>(n); }});
   if constexpr (o > 0) add_op_o<E, o - 1>(cases);
 }
+#ifdef FIXED_GRID
+template <class E, size_t... I>
+void add_op_hi(std::vector<Case> &cases, std::index_sequence<I...>) {
+  ((cases.push_back({std::string("lin-high/") + E::name + "/o" + std::to_string(I + 5) + "/n3", [=] { op_case<E, I + 5>(3); }})), ...);
+}
+template <class E>
+void add_op(std::vector<Case> &cases) {
+  add_op_hi<E>(cases, std::make_index_sequence<7>{});  // orders 5..11
+}
+#else
 template <class E>
 void add_op(std::vector<Case> &cases) {
   add_op_o<E, MAXO + 1>(cases);
 }
+#endif
 template <class EA, class EB, size_t oa, size_t ob>
 void add_link_o(std::vector<Case> &cases) {
   for (size_t n = 2; n <= MAXN; n++)
@@ -93,5 +104,13 @@ void add_link_o(std::vector<Case> &cases) {
 }
 template <class EA, class EB>
 void add_link(std::vector<Case> &cases) {
+#ifdef FIXED_GRID
+  for (size_t n = 2; n <= 3; n++)
+    for (auto wa : windows(n, false)) {
+      cases.push_back({std::string("link-high/") + EA::name + "," + EB::name + "/o6x5/n" + std::to_string(n) + "/wa" + W(wa), [=] { link_case<EA, EB, 6, 5>(n, wa); }});
+      cases.push_back({std::string("link-high/") + EA::name + "," + EB::name + "/o7x8/n" + std::to_string(n) + "/wa" + W(wa), [=] { link_case<EA, EB, 7, 8>(n, wa); }});
+    }
+#else
   add_link_o<EA, EB, MAXO, MAXO>(cases);
+#endif
 }
